@@ -410,6 +410,11 @@ func sortCallsOf(c *Ctx, f *ssa.Function) []sortCall {
 				if singleKeyLess(lessOf(c, w.Type())) {
 					continue
 				}
+				if isSliceT(w.Type()) {
+					// a named slice type that implements sort.Interface itself: the slice value is sorted directly
+					out = append(out, sortCall{ins: ins, direct: w})
+					continue
+				}
 				out = append(out, sortCall{ins: ins, wrap: w, fields: sortedFieldsOf(c, w.Type())})
 			}
 		}
